@@ -6,8 +6,11 @@
    float64 = Q, float32(x) = f32round x) and proved equal to the hand-written model functions
    the theorems of C15 are about, for all inputs.  A semantic edit of the Go source (another
    layer name, swapped or dropped coordinates, another min/max update, no Y flip, another
-   canvas size, another de-duplication key, a re-created index map) changes the generated
-   term and breaks the lemma named after the function. *)
+   canvas size, another de-duplication key, a re-created index map) changes what the generated
+   term computes and breaks the lemma named after the function.  Behaviour-preserving rewrites
+   do not: the definitions are instantiated by name ([by_name], Io/GoSem.v), helper functions
+   and constructors are unfolded wherever they occur (extracted or inlined), the translator
+   emits normal forms for loops (see Io/IoEq.v). *)
 From Coq Require Import String.
 From Coq Require Import List ZArith NArith QArith Lia Bool.
 From Sdfx Require Import Io.Export Io.ExportOps Io.GoSem Generated.IoExpr.
@@ -46,9 +49,14 @@ Definition ChangeLayer_m (d : drawing) (n : string) : drawing := change_layer n 
 Definition Line_m (d : drawing) (a b c x y z : Q) : drawing := draw_line d (a, b, c) (x, y, z).
 Definition SaveAs_m (d : drawing) (name : string) (w : dxfW) : error * dxfW := (None, w ++ [(name, snd d)]).
 
-Definition NewDXF_m := gen_NewDXF drawing dxf_drawing0 AddLayer_m.
-Definition SaveDXF_m := gen_SaveDXF Q dxfW drawing inject_Z dxf_drawing0 AddLayer_m ChangeLayer_m Line_m SaveAs_m.
-Definition writeDXF_m := gen_writeDXF Q dxfW drawing inject_Z dxf_drawing0 AddLayer_m ChangeLayer_m Line_m SaveAs_m.
+(* the models under the names of the Section variables of Generated/IoExpr.v (GoSem.by_name) *)
+Ltac pose_dxf :=
+  pose (F64 := Q); pose (World := dxfW); pose (Drawing := drawing); pose (fz := inject_Z);
+  pose (dxf_NewDrawing := dxf_drawing0); pose (Drawing_AddLayer := AddLayer_m);
+  pose (Drawing_ChangeLayer := ChangeLayer_m); pose (Drawing_Line := Line_m); pose (Drawing_SaveAs := SaveAs_m).
+Definition NewDXF_m := ltac:(by_name ltac:(pose_dxf) gen_NewDXF).
+Definition SaveDXF_m := ltac:(by_name ltac:(pose_dxf) gen_SaveDXF).
+Definition writeDXF_m := ltac:(by_name ltac:(pose_dxf) gen_writeDXF).
 
 (* NewDXF: layers "Lines" then "Points", both made current in turn *)
 Lemma NewDXF_eq name : NewDXF_m name = (name, new_dxf).
@@ -62,7 +70,7 @@ Proof. induction mesh as [|l mesh IH]; intros [n d]; cbn [fold_left fst snd]; [r
 (* SaveDXF: NewDXF, ChangeLayer("Lines"), one Line(p0.X, p0.Y, 0, p1.X, p1.Y, 0) per segment, Save *)
 Lemma SaveDXF_eq path mesh w : SaveDXF_m path mesh w = Val (w ++ [(path, save_dxf mesh)]) None.
 Proof.
-  unfold SaveDXF_m, gen_SaveDXF. fold NewDXF_m. rewrite NewDXF_eq. cbn [fst snd].
+  unfold SaveDXF_m, gen_SaveDXF, gen_NewDXF. autounfold with iogen_helpers. cbv zeta. cbn [fst snd].
   erewrite (range_loop_ext _ (fun _ l d => Next (seg_step d l)) mesh [] 0%Z _ eq_refl).
   - rewrite (range_loop_fold seg_step _ (fun _ _ _ => eq_refl)). rewrite fold_seg_step. cbn [fst snd].
     unfold gen_DXF_Save, SaveAs_m, save_dxf, ChangeLayer_m. cbn [fst snd err_nonnil]. reflexivity.
@@ -74,7 +82,7 @@ Qed.
 (* writeDXF (the consumer behind ToDXF) fed with any list of batches *)
 Lemma writeDXF_eq path batches w : writeDXF_m path batches w = Val (w ++ [(path, write_dxf batches)]) None.
 Proof.
-  unfold writeDXF_m, gen_writeDXF. fold NewDXF_m. rewrite NewDXF_eq. cbn [fst snd].
+  unfold writeDXF_m, gen_writeDXF, gen_NewDXF. autounfold with iogen_helpers. cbv zeta. cbn [fst snd].
   rewrite (range_loop_fold (fun d ls => fold_left seg_step ls d)).
   2:{ intros i ls d. rewrite (range_loop_fold seg_step); [reflexivity|]. intros j [[x0 y0] [x1 y1]] s. reflexivity. }
   assert (E : forall bs d, fold_left (fun d ls => fold_left seg_step ls d) bs d
@@ -94,39 +102,44 @@ Definition ChangeLayer2 (d : drawing2) (n : string) : drawing2 := change_layer2 
 Definition Line2 (d : drawing2) (a b c x y z : Q) : drawing2 := draw_line2 d (a, b, c) (x, y, z).
 Definition Circle2 (d : drawing2) (a b c r : Q) : drawing2 := draw_circle2 d (a, b, c) r.
 
-Lemma NewDXF2_eq name : gen_NewDXF drawing2 dxf_drawing02 AddLayer2 name = (name, new_dxf2).
+Ltac pose_dxf2 :=
+  pose (F64 := Q); pose (Drawing := drawing2); pose (fz := inject_Z);
+  pose (dxf_NewDrawing := dxf_drawing02); pose (Drawing_AddLayer := AddLayer2);
+  pose (Drawing_ChangeLayer := ChangeLayer2); pose (Drawing_Line := Line2); pose (Drawing_Circle := Circle2).
+Definition NewDXF2_m := ltac:(by_name ltac:(pose_dxf2) gen_NewDXF).
+Lemma NewDXF2_eq name : NewDXF2_m name = (name, new_dxf2).
 Proof. reflexivity. Qed.
 
-Definition DXF_Line_m := gen_DXF_Line Q drawing2 inject_Z ChangeLayer2 Line2.
-Definition DXF_Lines_m := gen_DXF_Lines Q drawing2 inject_Z ChangeLayer2 Line2.
-Definition DXF_Points_m := gen_DXF_Points Q drawing2 inject_Z ChangeLayer2 Circle2.
-Definition DXF_Triangle_m := gen_DXF_Triangle Q drawing2 inject_Z ChangeLayer2 Line2.
-Definition DXF_Box_m := gen_DXF_Box Q drawing2 inject_Z ChangeLayer2 Line2.
+Definition DXF_Line_m := ltac:(by_name ltac:(pose_dxf2) gen_DXF_Line).
+Definition DXF_Lines_m := ltac:(by_name ltac:(pose_dxf2) gen_DXF_Lines).
+Definition DXF_Points_m := ltac:(by_name ltac:(pose_dxf2) gen_DXF_Points).
+Definition DXF_Triangle_m := ltac:(by_name ltac:(pose_dxf2) gen_DXF_Triangle).
+Definition DXF_Box_m := ltac:(by_name ltac:(pose_dxf2) gen_DXF_Box).
 
 (* (DXF).Line: ChangeLayer("Lines") then Line(x0, y0, 0, x1, y1, 0) *)
 Lemma DXF_Line_eq d l : DXF_Line_m d l = (fst d, op_line (snd d) l).
-Proof. destruct l as [[x0 y0] [x1 y1]]. reflexivity. Qed.
+Proof. destruct l as [[x0 y0] [x1 y1]]. unfold DXF_Line_m, gen_DXF_Line. autounfold with iogen_helpers. reflexivity. Qed.
 
 Lemma DXF_Lines_eq d ls : DXF_Lines_m d ls = Val (fst d, op_lines (snd d) ls) None.
 Proof.
-  unfold DXF_Lines_m, gen_DXF_Lines. fold DXF_Line_m.
+  unfold DXF_Lines_m, gen_DXF_Lines. autounfold with iogen_helpers. cbv zeta. fold DXF_Line_m.
   rewrite (range_loop_fold (fun d l => (fst d, op_line (snd d) l))) by (intros; now rewrite DXF_Line_eq).
   unfold op_lines. f_equal. revert d. induction ls as [|l ls IH]; intros [n d]; cbn [fold_left fst snd]; [reflexivity | apply IH].
 Qed.
 
 Lemma DXF_Points_eq d ps r : DXF_Points_m d ps r = Val (fst d, op_points (snd d) ps r) None.
 Proof.
-  unfold DXF_Points_m, gen_DXF_Points. cbn [fst snd].
+  unfold DXF_Points_m, gen_DXF_Points. autounfold with iogen_helpers. cbv zeta. cbn [fst snd].
   rewrite (range_loop_fold (fun (d : string * drawing2) (p : vec2) => (fst d, draw_circle2 (snd d) (fst p, snd p, 0) r))) by reflexivity.
   unfold op_points, ChangeLayer2. f_equal. generalize (change_layer2 "Points" (snd d)). intros d0.
   generalize (fst d). intros n. revert d0. induction ps as [|p ps IH]; intros d0; cbn [fold_left fst snd]; [reflexivity | apply IH].
 Qed.
 
 Lemma DXF_Triangle_eq d a b c : DXF_Triangle_m d (a, b, c) = Val (fst d, op_lines (snd d) (tri_segs a b c)) None.
-Proof. unfold DXF_Triangle_m, gen_DXF_Triangle. fold DXF_Lines_m. rewrite DXF_Lines_eq. reflexivity. Qed.
+Proof. unfold DXF_Triangle_m, gen_DXF_Triangle. autounfold with iogen_helpers. cbv zeta. fold DXF_Lines_m DXF_Line_m. rewrite ?DXF_Lines_eq, ?DXF_Line_eq. reflexivity. Qed.
 
 Lemma DXF_Box_eq d mn mx : DXF_Box_m d (mn, mx) = Val (fst d, op_lines (snd d) (box_segs mn mx)) None.
-Proof. unfold DXF_Box_m, gen_DXF_Box. fold DXF_Lines_m. rewrite DXF_Lines_eq. reflexivity. Qed.
+Proof. unfold DXF_Box_m, gen_DXF_Box. autounfold with iogen_helpers. cbv zeta. fold DXF_Lines_m DXF_Line_m. rewrite ?DXF_Lines_eq, ?DXF_Line_eq. reflexivity. Qed.
 
 (* ================================================================== SVG *)
 (* the canvas: file name, (width, height, lines), the variadic string arguments of Start and
@@ -145,12 +158,18 @@ Definition svg_st (s : svgT) : svg_state := let '(_, _, p0s, p1s, mn, mx) := s i
 Definition svg_with (s : svgT) (t : svg_state) : svgT :=
   let '(fn, ls, _, _, _, _) := s in let '(p0s, p1s, mn, mx) := t in (fn, ls, p0s, p1s, mn, mx).
 
-Definition SVG_Line_m := gen_SVG_Line Q qmin qmax.
-Definition SVG_Save_m := gen_SVG_Save Q svgW Qminus svg_Create svg_Close svg_New_m svg_Start_m svg_Line_m svg_End_m.
-Definition SaveSVG_m := gen_SaveSVG Q svgW inject_Z Qminus qmin qmax svg_Create svg_Close svg_New_m svg_Start_m svg_Line_m svg_End_m.
-Definition writeSVG_m := gen_writeSVG Q svgW inject_Z Qminus qmin qmax svg_Create svg_Close svg_New_m svg_Start_m svg_Line_m svg_End_m.
+Ltac pose_svg :=
+  pose (F64 := Q); pose (World := svgW); pose (fz := inject_Z); pose (fsub := Qminus); pose (fadd := Qplus);
+  pose (fmin := qmin); pose (fmax := qmax);
+  pose (os_Create := svg_Create); pose (file_Close := svg_Close); pose (svg_New := svg_New_m);
+  pose (svg_Start := svg_Start_m); pose (svg_Line := svg_Line_m); pose (svg_End := svg_End_m).
+Definition NewSVG_m := ltac:(by_name ltac:(pose_svg) gen_NewSVG).
+Definition SVG_Line_m := ltac:(by_name ltac:(pose_svg) gen_SVG_Line).
+Definition SVG_Save_m := ltac:(by_name ltac:(pose_svg) gen_SVG_Save).
+Definition SaveSVG_m := ltac:(by_name ltac:(pose_svg) gen_SaveSVG).
+Definition writeSVG_m := ltac:(by_name ltac:(pose_svg) gen_writeSVG).
 
-Lemma NewSVG_eq fn ls : gen_NewSVG Q inject_Z fn ls = svg_with (fn, ls, [], [], (0, 0), (0, 0)) svg_new.
+Lemma NewSVG_eq fn ls : NewSVG_m fn ls = svg_with (fn, ls, [], [], (0, 0), (0, 0)) svg_new.
 Proof. reflexivity. Qed.
 
 (* SVG.Line: first segment initialises min/max, later ones extend them; both end points stored *)
@@ -172,7 +191,7 @@ Lemma SVG_Save_eq s w : (let '(_, _, p0s, p1s, _, _) := s in length p0s = length
   Val (let '(fn, ls, p0s, _, _, _) := s in (fn, svg_save (svg_st s), [] :: map (fun _ => [ls]) p0s)) None.
 Proof.
   destruct s as [[[[[fn ls] p0s] p1s] mn] mx]. intros Hl.
-  unfold SVG_Save_m, gen_SVG_Save, svg_Create. cbn [fst snd err_nonnil svg_st svg_save].
+  unfold SVG_Save_m, gen_SVG_Save. autounfold with iogen_helpers. unfold svg_Create. cbv beta iota zeta. cbn [fst snd err_nonnil svg_st svg_save].
   set (tr := fun pp : vec2 * vec2 => let '(p0, p1) := pp in
                (fst p0 - fst mn, snd mx - snd p0, fst p1 - fst mn, snd mx - snd p1)).
   assert (L : forall (pre1 l0 l1 : list vec2) i (w0 : svgW), length l0 = length l1 -> i = zlen pre1 ->
@@ -257,7 +276,7 @@ Qed.
 Lemma SaveSVG_eq path style mesh w :
   SaveSVG_m path style mesh w = Val (path, save_svg mesh, [] :: map (fun _ => [style]) mesh) None.
 Proof.
-  unfold SaveSVG_m, gen_SaveSVG. rewrite NewSVG_eq. fold SVG_Line_m.
+  unfold SaveSVG_m, gen_SaveSVG, gen_NewSVG. autounfold with iogen_helpers. cbv zeta. fold SVG_Line_m.
   rewrite (range_loop_fold (fun s (v : seg) => SVG_Line_m s (fst v) (snd v))) by reflexivity.
   rewrite svg_fold_with. fold SVG_Save_m.
   etransitivity; [|apply (save_after_lines path style mesh w)].
@@ -270,7 +289,7 @@ Qed.
 Lemma writeSVG_eq path style batches w :
   writeSVG_m path style batches w = Val (path, write_svg batches, [] :: map (fun _ => [style]) (concat batches)) None.
 Proof.
-  unfold writeSVG_m, gen_writeSVG. rewrite NewSVG_eq. fold SVG_Line_m.
+  unfold writeSVG_m, gen_writeSVG, gen_NewSVG. autounfold with iogen_helpers. cbv zeta. fold SVG_Line_m.
   rewrite (range_loop_fold (fun s ls => fold_left (fun s (v : seg) => SVG_Line_m s (fst v) (snd v)) ls s)).
   2:{ intros i ls s. now rewrite (range_loop_fold (fun s (v : seg) => SVG_Line_m s (fst v) (snd v))) by reflexivity. }
   rewrite Export.fold_batches, svg_fold_with. fold SVG_Save_m.
@@ -287,12 +306,15 @@ Definition mfW := list (list q3 * list (Z * Z * Z)).
 Definition mf_Create (path : string) (w : mfW) : error * mfW := (None, w).
 Definition mf_Encode_m (v : list q3) (t : list (Z * Z * Z)) (w : mfW) : error * mfW := (None, w ++ [(v, t)]).
 
-Definition toPoint3D_m := gen_toPoint3D Q Q f32round.
+Ltac pose_3mf :=
+  pose (F64 := Q); pose (F32 := Q); pose (World := mfW); pose (to32 := f32round); pose (f32eqb := qeqb);
+  pose (mf_CreateWriter := mf_Create); pose (mf_Encode := mf_Encode_m).
+Definition toPoint3D_m := ltac:(by_name ltac:(pose_3mf) gen_toPoint3D).
 Lemma toPoint3D_eq a : toPoint3D_m a = nq3 a.
 Proof. destruct a as [[x y] z]. reflexivity. Qed.
 
-Definition addVertex_m := gen_write3MF_addVertex Q qeqb.
-Definition write3MF_m := gen_write3MF Q Q mfW f32round qeqb mf_Create mf_Encode_m.
+Definition addVertex_m := ltac:(by_name ltac:(pose_3mf) gen_write3MF_addVertex).
+Definition write3MF_m := ltac:(by_name ltac:(pose_3mf) gen_write3MF).
 
 Definition av_now := add_vertex q3 q3 (fun v => v) q3eqb.
 Definition at_now := add_triangle q3 q3 (fun v => v) q3eqb.
@@ -399,7 +421,7 @@ Lemma write3MF_eq path batches w : (3 * zlen (concat batches) <= 2 ^ 32)%Z ->
   Val (w ++ [(fst (mf_write_now (map (map (map_tri nq3)) batches)),
               map itZ (snd (mf_write_now (map (map (map_tri nq3)) batches))))]) None.
 Proof.
-  intros Hb. unfold write3MF_m, gen_write3MF, mf_Create. cbn [err_nonnil].
+  intros Hb. unfold write3MF_m, gen_write3MF. autounfold with iogen_helpers. unfold mf_Create. cbv zeta. cbn [err_nonnil].
   fold addVertex_m. fold toPoint3D_m.
   (* the nested loops are one loop over the concatenation *)
   assert (Hcat : forall (bs : list (list (q3 * q3 * q3))) tbl index its, Imap index tbl ->
